@@ -326,6 +326,7 @@ type genv struct {
 	log     []string
 	events  []string // fault events in the order they fired
 	preAdds int
+	caBase  int // CA requests that belong to earlier runs on this environment (a warm-up run)
 }
 
 var (
@@ -431,7 +432,7 @@ func newEnv(o envOpt) *genv {
 		phase := "addcerts"
 		if len(frame) > 0 && frame[0] == 13 {
 			phase = "auth"
-		} else if len(e.ca.Reqs) == 0 {
+		} else if len(e.ca.Reqs) == e.caBase {
 			phase = "generate"
 		}
 		if fault == uagent.FaultWrongType && len(frame) > 0 && frame[0] != 13 && frame[0] != 11 {
